@@ -21,7 +21,7 @@ CHECKS["C03"] = {
             "is used against another: the rule that found the set_col defect), result shape, operand polarity (Sub: rhs negative, Div: scalar is the divisor), "
             "co-indexing, full 0..dim ranges, norm orientation, product construction (same column on both sides), transpose/swap/delete/resize "
             "index arithmetic, and consuming forms forward in operand order."
-            " norm_p returns norm_max() for p = inf before the power-sum formula (whose value there is 1 for every matrix). Frame rule: every editing operation writes only the fields its definition changes (transitively through the `&mut self` methods it calls and through self[(i,j)]); an early return of norm_1 / norm_inf is the formula specialised (norm_max() only when the summed dimension is 1).",
+            " norm_p returns norm_max() for p = inf before the power-sum formula (whose value there is 1 for every matrix). Frame rule: every editing operation writes only the fields its definition changes (transitively through the `&mut self` methods it calls and through self[(i,j)]); an early return of norm_1 / norm_inf is the formula specialised (norm_max() only when the summed dimension is 1). The matrix product stores every column unconditionally; transpose_in_place has no return before any write.",
     "design_ref": "DESIGN.md §3 C03",
     "note": "Decides structure of each operation, not equality with a reference model over all values/histories (not decidable statically). "
             "Trusted: rustc typeck/callee resolution; the rule engine; Vec semantics (push/drain/clone).",
@@ -84,7 +84,7 @@ CHECKS["C04"] = {
             "compact: n x (m1+m2+1) and the operators preserve it with the trait's operator; fill_band's guard entails its column; the matvec window provably never reads "
             "padding and indexes x by the true column; the pivot search compares magnitudes and is an arg-max; the row exchange, the sign flip and the recorded index are "
             "paired; det multiplies the sign by the full pivot column; solve replays the recorded exchanges and multipliers with the same offsets."
-            " Every division in decompose is dominated by a test that the pivot differs from zero (a singular band has determinant 0, not NaN). resize updates the layout on every path (no early return skips it); det runs the factorisation unconditionally (no shortcut for some bandwidths); a whole-row swap_rows of the compact copy is accepted as the exchange. Every panic of decompose / solve / det is guarded by shape comparisons (or an exactly-zero pivot) only, never by a computed functional such as a determinant or a threshold on magnitudes.",
+            " Every division in decompose is dominated by a test that the pivot differs from zero (a singular band has determinant 0, not NaN). resize updates the layout on every path (no early return skips it); det runs the factorisation unconditionally (no shortcut for some bandwidths); a whole-row swap_rows of the compact copy is accepted as the exchange. Every panic of decompose / solve / det is guarded by shape comparisons (or an exactly-zero pivot) only, never by a computed functional such as a determinant or a threshold on magnitudes. In solve the forward-substitution window starts at m1.",
     "design_ref": "DESIGN.md §3 C04",
     "note": "The initial left-shift/zero-fill is decided by resolving l as the induction variable m1 - i; the elimination window bound (l capped at n) is outside the linear prover; agreement with the dense result and backward error are numerical.",
     "technique": TECH + "single-fact linear entailment on index windows, magnitude/arg-max analysis, exchange/sign/index pairing, store/replay offset agreement",
@@ -102,7 +102,7 @@ CHECKS["C06"] = {
     "text": "For every shape and pattern: all five traversals of the structure have the one compressed-column walk shape with val and row_index co-indexed; "
             "the row_index value is used only in row positions and the walk's column only in column positions; the constructors establish the length invariant "
             "(paired pushes per drained triplet, col_start of cols+1); col_start is the exclusive prefix sum of the per-column counts; col_index expands the gaps; "
-            "get and insert share guards and membership test; insert overwrites the matching entry or rebuilds with the same shape; transpose allocates (cols, rows, nnz) and scatters consistently. from_triplets only reorders its input (nothing filters or de-duplicates the list); an early return of scale needs the factor to equal T::one(); transpose is accepted with a running total, a next-free-slot array or counters zeroed in place. No panic guard of from_vecs holds for two equal neighbouring entries of one array (equal consecutive column starts are an empty column).",
+            "get and insert share guards and membership test; insert overwrites the matching entry or rebuilds with the same shape; transpose allocates (cols, rows, nnz) and scatters consistently. from_triplets only reorders its input (nothing filters or de-duplicates the list); an early return of scale needs the factor to equal T::one(); transpose is accepted with a running total, a next-free-slot array or counters zeroed in place. No panic guard of from_vecs holds for two equal neighbouring entries of one array (equal consecutive column starts are an empty column). An early return of from_triplets hands back cols + 1 column starts.",
     "design_ref": "DESIGN.md §3 C06",
     "note": "from_vecs performs no validation (the property quantifies over well-formed raw arrays). Order-independence and equality with a reference model over all histories are not decided statically.",
     "technique": TECH + "walk-shape/co-indexing/role analysis over the three parallel arrays, paired-push and prefix-sum data-flow patterns, sibling agreement of get/insert",
@@ -137,7 +137,7 @@ CHECKS["C09"] = {
             "(e) the method itself: the map `state at the top of an iteration -> next` (start-up values, first and later iteration) that drives x equals, as a rational function of the inner products "
             "and norms it evaluates, the map of our transcription of CG / BiCG / Bi-CGSTAB / QMR from Barrett et al., Templates (reference/krylov_ref.rs, frozen typed HIR), compared by colour "
             "refinement over the loop-carried variables with rational functions hashed at a point of GF(2^127-1) (polynomial identity testing on names; nothing is executed); every exact-zero "
-            "failure exit tests a scalar, at a state of x, at which the published method stops too.",
+            "failure exit tests a scalar, at a state of x, at which the published method stops too. The tolerance test guarding a success exit is made in every iteration; failure exits are exact-zero tests (no threshold, no sign test).",
     "design_ref": "DESIGN.md §3 C09, §7, §12, §14.2, §17",
     "note": "NOT decided (not applicable to static analysis): the rate of convergence (O(n) iterations) and agreement with the direct solution to tol*cond(A). The eight open findings are inherent to "
             "Lanczos-type methods without look-ahead/restart and are not a small patch; they are listed by exact key in known_findings.txt, so a ninth indefinite scalar is still reported.",
@@ -185,7 +185,7 @@ CHECKS["C12"] = {
             "with lead(r)/lead(v) at index deg r - deg v; one iteration does q <- q + t and r <- r - t*v with the same t and v (so u = q*v + r is a loop invariant in exact "
             "arithmetic); the cancelled leading coefficient of r is cleared explicitly (absorption test) so that progress does not rely on an exactly-zero rounding residue "
             "(the genuine defect this rule found: [1,1,1]/[49] returned Err); the loop exits on r = 0 or deg r < deg v and returns Ok((q, r))."
-            " The cancelled leading coefficient is removed unconditionally before trim (a value test on the rounding residue, component-wise for Complex, does not guarantee the degree drops). Before the loop polydiv refuses only a zero divisor (no other test turns a valid division into Err), and an Ok returned before the loop is guarded by len u < len v or u = 0.",
+            " The cancelled leading coefficient is removed unconditionally before trim (a value test on the rounding residue, component-wise for Complex, does not guarantee the degree drops). Before the loop polydiv refuses only a zero divisor (no other test turns a valid division into Err), and an Ok returned before the loop is guarded by len u < len v or u = 0. The division loop ends through its condition or the cap only (no other break).",
     "design_ref": "DESIGN.md §3 C12, §4 no. 7",
     "note": "The size of the rounding error in q and r is not decided; nor is the astronomically unlikely chain of one-ulp residues that could still reach the cap.",
     "technique": TECH + "dominating Err guards, counter-capped loop shape + call-graph termination, term/update pairing, value-independent degree decrease",
@@ -221,7 +221,7 @@ CHECKS["C19"] = {
             "a clone of the same slot; cross-sections use the right axis, argument positions and full range; var_as_matrix is nx x ny with the flat map; 1-D/2-D trapezium use the "
             "two end points / four distinct corners of each cell with the right spacings and weight; interpolation is the linear formula on the bracketed cell, its snapping windows are "
             "literals not larger than 1e-6, and at a cell's end nodes it reduces to the stored nodal value using floating-point-exact simplifications only (never (a/b)*b = a); the writer's record "
-            "(coordinate + nvars values) matches the reader's stride and field order. The writer opens its file truncating it (File::create or OpenOptions with truncate(true)); the reader is accepted in the stride forms `i % stride == 0 / == var+1`, `step_by(stride)` and `vars[i / stride][i % stride - 1]`; every placeholder of the writer's format strings (templates of the lowered format_args!, decoded from the typed HIR) is delimited by white space, which is what the reader splits on.",
+            "(coordinate + nvars values) matches the reader's stride and field order. The writer opens its file truncating it (File::create or OpenOptions with truncate(true)); the reader is accepted in the stride forms `i % stride == 0 / == var+1`, `step_by(stride)` and `vars[i / stride][i % stride - 1]`; every placeholder of the writer's format strings (templates of the lowered format_args!, decoded from the typed HIR) is delimited by white space, which is what the reader splits on. A quadrature returns early only with 0.0 and only for a mesh without a cell.",
     "design_ref": "DESIGN.md §3 C19",
     "note": "Exactness of quadrature/interpolation on (bi)linear data between the nodes and the printed-precision round trip are numerical and not decided statically. Grids are strictly increasing (the property's domain). Raw Mesh2D (i,j) indexing is outside the claim.",
     "technique": TECH + "flat-index map discovery + single-fact bounds proofs, accessor guards, corner-set / stride-agreement patterns",
